@@ -465,6 +465,61 @@ func runSmall() {
 		})
 }
 
+// (b') texts that LOOK like numbers in some syntax but are not plain digit strings: the mode is
+// chosen from the content, and a classification that leans on a number parser (base prefixes, digit
+// separators, signs, exponents, other scripts' digits) would put them into numeric mode. Every
+// length 2..24 of every pattern, default options and two others.
+func runLookalikes() {
+	type pat struct {
+		name string
+		gen  func(n int) string
+	}
+	rep := func(unit string, n int) string {
+		if n < 0 {
+			n = 0
+		}
+		b := make([]byte, 0, n)
+		for len(b) < n {
+			b = append(b, unit[len(b)%len(unit)])
+		}
+		return string(b)
+	}
+	pats := []pat{
+		{"0x + hex digits", func(n int) string { return "0x" + rep("DEADBEEF0129", n-2) }},
+		{"0X + hex digits", func(n int) string { return "0X" + rep("ab12cd34", n-2) }},
+		{"0b + binary digits", func(n int) string { return "0b" + rep("10101100", n-2) }},
+		{"0o + octal digits", func(n int) string { return "0o" + rep("1234567", n-2) }},
+		{"digits with _ separators", func(n int) string { return rep("1_000_", n-1) + "7" }},
+		{"leading +", func(n int) string { return "+" + rep("1234567890", n-1) }},
+		{"leading -", func(n int) string { return "-" + rep("9876543210", n-1) }},
+		{"decimal point", func(n int) string { return rep("12345", n/2) + "." + rep("67890", n-n/2-1) }},
+		{"exponent", func(n int) string { return rep("12345", n-3) + "e10" }},
+		{"E exponent", func(n int) string { return rep("98765", n-3) + "E+5"[:3] }},
+		{"leading space", func(n int) string { return " " + rep("1234567890", n-1) }},
+		{"trailing space", func(n int) string { return rep("1234567890", n-1) + " " }},
+		{"leading zero octal", func(n int) string { return "0" + rep("89", n-1) }},
+		{"fullwidth digits", func(n int) string { return strings.Repeat("１２３", n/3+1) }},
+		{"arabic-indic digits", func(n int) string { return strings.Repeat("١٢٣", n/3+1) }},
+		{"inf / nan", func(n int) string { return rep("Infinity NaN ", n) }},
+	}
+	opts := []opt{{Level: 1, Mask: -1}, {Level: 3, Mask: 2}, {Level: 0, Mask: -1, Version: 10}}
+	type lj struct{ p, n int }
+	var jobs []lj
+	for p := range pats {
+		for n := 2; n <= 24; n++ {
+			jobs = append(jobs, lj{p, n})
+		}
+	}
+	chk.Range(fmt.Sprintf("(b') number look-alikes: %d patterns (base prefixes 0x 0X 0b 0o, _ separators, signs, decimal point, exponents, spaces, leading-zero, fullwidth and Arabic-Indic digits, Infinity/NaN) x EVERY length 2..24 x 3 option sets: write -> read == text", len(pats)), len(jobs),
+		func(i int) string { return fmt.Sprint(pats[jobs[i].p].name, " len ", jobs[i].n) },
+		func(l *mc.Local, i int) {
+			t := pats[jobs[i].p].gen(jobs[i].n)
+			for _, o := range opts {
+				smallCase(l, t, o)
+			}
+		})
+}
+
 // ---------------------------------------------------------------------------------------------
 // (c) image level
 
@@ -698,6 +753,7 @@ func main() {
 	chk.Sample("autoversion", auto[len(auto)/3].rcase())
 
 	runSmall()
+	runLookalikes()
 	chk.Sample("small", rcase{Sub: "small", Text: "漢\x00", Level: 3, Mask: 5, Version: 1, Charset: "Shift_JIS"})
 
 	runImage()
